@@ -2,10 +2,12 @@
 """Copy confirmed seeded changes from /tmp/seed-out/<ID>/ to /verif/seeded/<ID>-<X>/ and record what was run."""
 import json, os, re, shutil, subprocess, sys
 MISSED_AT_FIRST = {'C03-B', 'C04-B', 'C05-B', 'C06-A', 'C06-B', 'C10-A', 'C10-B', 'C11-A', 'C17-A', 'C17-B', 'C18-A'}
-ids = sys.argv[1:] or sorted(d for d in os.listdir('/tmp/seed-out') if re.match(r'C\d\d$', d))
+ROOT = os.environ.get('SEED_DIR', '/tmp/seed-out')
+LETTERS = os.environ.get('SEED_LETTERS', 'AB')
+ids = sys.argv[1:] or sorted(d for d in os.listdir(ROOT) if re.match(r'C\d\d$', d))
 for pid in ids:
-    for x in 'AB':
-        src = f'/tmp/seed-out/{pid}'
+    for x in LETTERS:
+        src = f'{ROOT}/{pid}'
         patch, demo, notes = f'{src}/defect_{x}.diff', f'{src}/demo_{x}.py', f'{src}/notes_{x}.md'
         if not (os.path.exists(patch) and os.path.exists(demo)):
             print('skip', pid, x)
@@ -38,6 +40,6 @@ for pid in ids:
                 'demo_with_change_exit': int(dw.group(1)), 'demo_on_unchanged_tree_exit': int(dc.group(1)),
             },
             'check_result': {'command': f'VERIF_REPO=<scratch> ./check {pid} quick', 'violation_lines': viol, 'caught': bool(viol)},
-            'caught_at_first_attempt': name not in MISSED_AT_FIRST,
+            'caught_at_first_attempt': (name not in MISSED_AT_FIRST) if LETTERS == 'AB' else bool(viol),
         }
         json.dump(meta, open(f'{dst}/meta.json', 'w'), indent=1)
